@@ -358,6 +358,26 @@ class CFG:
                 out.append((self.stmt[t], lab))
         return out
 
+    def conditions_at(self, n: int) -> List[tuple]:
+        """[(atom, truth)]: conditions known to hold (truth True) or not to hold (False) whenever ``n`` executes, taken from the
+        dominating branches; leading `not`s are stripped into the truth value and a conjunction known to hold / a disjunction known
+        not to hold is split into its parts.  `if not c: continue` followed by code and `if c:` around the same code give the same
+        answer."""
+        out = []
+
+        def add(t, truth):
+            while isinstance(t, ast.UnaryOp) and isinstance(t.op, ast.Not):
+                t, truth = t.operand, not truth
+            if isinstance(t, ast.BoolOp) and ((isinstance(t.op, ast.And) and truth) or (isinstance(t.op, ast.Or) and not truth)):
+                for v in t.values:
+                    add(v, truth)
+                return
+            out.append((t, truth))
+        for st, lab in self.controlling_branches(n):
+            if isinstance(st, (ast.If, ast.While)):
+                add(st.test, lab == "T")
+        return out
+
     def describe(self, n: int) -> str:
         k = self.kind[n]
         if k in ("entry", "exit", "raise"):
